@@ -3,6 +3,7 @@ package main
 import (
 	"fmt"
 	"math/rand"
+	"sync"
 
 	"github.com/uhppoted/uhppote-core/encoding/bcd"
 )
@@ -187,6 +188,58 @@ func runC12(o *opts) (*summary, error) {
 			s[rng.Intn(m)] = byte(rng.Intn(256))
 		}
 		w.put(bcdEnc(s), "enc-long", "el"+string(s))
+	}
+
+	// the same functions called from several goroutines at once (the listener decodes while requests encode): each call's
+	// result is a function of its own argument - whatever the package keeps between calls is not shared state
+	{
+		const workers = 8
+		per := 400
+		if thorough {
+			per = 5000
+		}
+		inputs := make([][][]byte, workers)
+		for g := range inputs {
+			for i := 0; i < per; i++ {
+				n := 1 + rng.Intn(9)
+				b := make([]byte, n)
+				for j := range b {
+					b[j] = byte(rng.Intn(10))<<4 | byte(rng.Intn(10))
+				}
+				if rng.Intn(5) == 0 {
+					b[rng.Intn(n)] |= 0xa0
+				}
+				inputs[g] = append(inputs[g], b)
+			}
+		}
+		results := make([][]M, workers)
+		var wg sync.WaitGroup
+		gate := make(chan struct{})
+		for g := 0; g < workers; g++ {
+			wg.Add(1)
+			go func(g int) {
+				defer wg.Done()
+				<-gate
+				for i, b := range inputs[g] {
+					if (i+g)%2 == 0 {
+						results[g] = append(results[g], bcdDec(b))
+					} else {
+						d := make([]byte, 0, 2*len(b))
+						for _, x := range b {
+							d = append(d, '0'+x>>4%10, '0'+x&0x0f%10)
+						}
+						results[g] = append(results[g], bcdEnc(d))
+					}
+				}
+			}(g)
+		}
+		close(gate)
+		wg.Wait()
+		for g := range results {
+			for i, r := range results[g] {
+				w.put(r, "concurrent", fmt.Sprintf("c%d/%d", g, i))
+			}
+		}
 	}
 
 	// exhaustive 3-byte decode in summarised form
